@@ -85,7 +85,7 @@ LIVELOCK = {'m': 'airfoil', 'op': 'livelock', 'wd': 3000, 'xl': 0, 'xn': 40,
             'pts': [[-20, 0], [20, -6], [60, 0], [60, 10], [13, 10], [13, 5], [8, 5], [8, 6], [12, 6], [12, 10], [-20, 10]]}
 
 
-def make_open_section(chord, camber_h, r_max, r_le, r_te, n_side, t_cut=0.8):
+def make_open_section(chord, camber_h, r_max, r_le, r_te, n_side, t_cut=0.8, front=False):
     """the closed section cut open at camber fraction t_cut: upper surface from the cut to the leading edge, the cap, lower back to the cut"""
     sec = make_section(chord, camber_h, r_max, r_le, r_te, n_side)
     # rebuild the point list from the generator's pieces: take the closed polygon and drop everything with x beyond the cut
@@ -93,6 +93,12 @@ def make_open_section(chord, camber_h, r_max, r_le, r_te, n_side, t_cut=0.8):
     xcut = t_cut * chord * unit
     pts = sec['pts']
     # the closed list starts on the upper surface at the leading edge: rotate so that it starts just after the cut on the lower side
+    if front:
+        # open at the leading edge: drop everything ahead of the cut; the closed list runs upper (x increasing), TE cap,
+        # lower (x decreasing), LE cap - the kept run is contiguous
+        inside = [i for i, p in enumerate(pts) if p[0] >= xcut]
+        sec['pts'] = pts[inside[0]:inside[-1] + 1]
+        return sec
     keep = [p for p in pts if p[0] <= xcut]
     # order: lower side (from the cut towards the LE), cap, upper side (LE towards the cut). In the closed list the upper run comes
     # first (x increasing), then the TE cap and lower (x decreasing), then the LE cap. Split at the first index whose x > xcut.
@@ -112,9 +118,13 @@ def expand_c10(cfg):
     chord = CHORDS[cfg['chord']]
     camh = cfg['camber'] / 100.0 * chord
     rmax = cfg['thick'] / 100.0 * chord
-    rle = 0.016 * chord
-    rte = 0.008 * chord
-    if cfg['open']:
+    # edge radius profile: 0 = round nose / thin tail, 1 = thin nose / thick tail (maximum thickness still ahead of mid-chord)
+    rle, rte = ((0.016, 0.008), (0.004, 0.03))[cfg.get('prof', 0)]
+    rle *= chord
+    rte *= chord
+    if cfg['open'] and cfg.get('front'):
+        sec = make_open_section(chord, camh, rmax, rle, rte, cfg['nside'], t_cut=0.15, front=True)
+    elif cfg['open']:
         sec = make_open_section(chord, camh, rmax, rle, rte, cfg['nside'])
     else:
         sec = make_section(chord, camh, rmax, rle, rte, cfg['nside'])
@@ -129,6 +139,8 @@ def expand_c10(cfg):
                         {'T': IDENT, 'rev': True, 'shift': 0},
                         {'T': IDENT, 'rev': False, 'shift': (n // 3) if not cfg['open'] else 0},
                         {'T': IDENT, 'rev': False, 'shift': (n - 5) if not cfg['open'] else 0}]}
+    rec['le_chk'] = not (cfg['open'] and cfg.get('front', False))
+    rec['te_chk'] = not (cfg['open'] and not cfg.get('front', False))
     rec.update(sec)
     return rec
 
